@@ -15,11 +15,11 @@ import copy
 import json
 import os
 
-FEATS = ("const", "setc", "tup", "dflt", "kwd", "lam", "nest", "gx", "dcall")
+FEATS = ("const", "setc", "tup", "dflt", "kwd", "lam", "nest", "gx", "dcall", "kw2")
 NESTS = (["alpha", "beta", "gamma", "delta"], ["alpha", "beta", "gamma", "epsilon"], ["north", "south", "east", "west", "up"])
 
 
-def gen_prog(rng, nm=None, nh=None, nv=None, cyc_rate=0.15, hidden_rate=0.08, aux_rate=0.3, explicit_rate=0.15, chain_rate=0.6, lambda_rate=0.25, twin_rate=0.3, maux_rate=0.2):
+def gen_prog(rng, nm=None, nh=None, nv=None, cyc_rate=0.15, hidden_rate=0.08, aux_rate=0.3, explicit_rate=0.15, chain_rate=0.6, lambda_rate=0.25, twin_rate=0.3, maux_rate=0.2, kw2_rate=0.0):
     nm = nm or rng.randint(2, 4)
     nh = rng.randint(0, 3) if nh is None else nh
     nv = rng.randint(0, 3) if nv is None else nv
@@ -77,6 +77,8 @@ def gen_prog(rng, nm=None, nh=None, nv=None, cyc_rate=0.15, hidden_rate=0.08, au
             # an anonymous helper bound to a module-level name: `h1 = lambda x: [...]` (all lambdas share one __qualname__)
             d["aslambda"] = True
             d.update(setc=None, tup=None, dflt=None, kwd=None, lam=None, nest=None, gx=None, dcall=None)
+        elif d["kind"] == "plain" and rng.random() < kw2_rate:
+            d["kw2"] = rng.choice([0, 1])         # two required keyword-only parameters, passed by keyword at every call site
     # a variable whose name differs from another one only in case (rule keys that tie in a case-insensitive order)
     for n in [x for x in names if x[0] == "V"]:
         if rng.random() < twin_rate and not unsupported(defs[n]["value"]):
@@ -111,6 +113,10 @@ def edits(rng, prog, n=1):
             log.append(["var", name])
             continue
         kind = rng.choice(["const", "setc", "tup", "dflt", "kwd", "lam", "nest", "gx", "dcall", "ref+", "ref-", "explicit"])
+        if d.get("kw2") is not None and rng.random() < 0.5:
+            d["kw2"] = 1 - d["kw2"]       # the two keyword-only parameter names change places, uses included
+            log.append(["kw2", name])
+            continue
         if d.get("aslambda") and kind in ("setc", "tup", "dflt", "kwd", "lam", "nest", "gx", "dcall"):
             kind = "const"                # a lambda helper renders its constant and references only
         if kind == "const":
@@ -206,6 +212,11 @@ def _lit(v):
     return repr(v)
 
 
+def _cargs(td):
+    """argument text of a call of `td`: a helper with two required keyword-only parameters is called with both by keyword"""
+    return "x - 1, p=3, q=4" if td is not None and td.get("kw2") is not None else "x - 1"
+
+
 def render_def(name, d, prog, pkg):
     """source text of one definition (as it appears in its module)"""
     if d["kind"] == "var":
@@ -225,6 +236,10 @@ def render_def(name, d, prog, pkg):
         params += ", g=%s" % ("_box", "_unbox")[d["dcall"]]
     if d["kwd"] is not None:
         params += ", *, z=%d" % d["kwd"]
+    if d.get("kw2") is not None:
+        # two required keyword-only parameters; the edit 0 <-> 1 exchanges their names together with their uses, which leaves
+        # the bytecode as it is and changes what keyword callers get
+        params += (", p, q" if d["kwd"] is not None else ", *, p, q") if d["kw2"] == 0 else (", q, p" if d["kwd"] is not None else ", *, q, p")
     L = []
     if d["kind"] == "memento":
         L.append('@memento_function(cluster="vp"%s)' % (', version=%r' % d["explicit"] if d["explicit"] else ""))
@@ -248,6 +263,8 @@ def render_def(name, d, prog, pkg):
         L.append("    r.append(y)")
     if d["kwd"] is not None:
         L.append("    r.append(z)")
+    if d.get("kw2") is not None:
+        L.append("    r.append(p * 10 + q)" if d["kw2"] == 0 else "    r.append(q * 10 + p)")
     if d.get("nest") is not None:
         L.append("    r.append(sorted(w[0][1]))")
     if d.get("gx") is not None:
@@ -280,7 +297,7 @@ def render_def(name, d, prog, pkg):
                 L.append("    r.append(%s)" % expr)
         elif form == "hidden":
             tbl = "globals()" if td["where"] == here else "vars(%s)" % td["where"]
-            L.append("    r.append(%s[%r](x - 1) if x > 0 else None)" % (tbl, t))
+            L.append("    r.append(%s[%r](%s) if x > 0 else None)" % (tbl, t, _cargs(td)))
         else:
             if "." in expr:
                 # `module.func(...)` compiles differently in a module file (where the compiler sees the import and
@@ -292,9 +309,9 @@ def render_def(name, d, prog, pkg):
                 L.append("    %s = %s" % (loc, expr))
                 expr = loc
             if form == "chained":
-                L.append("    r.append(_box(%s(x - 1) if x > 0 else None).val)" % expr)
+                L.append("    r.append(_box(%s(%s) if x > 0 else None).val)" % (expr, _cargs(td)))
             else:
-                L.append("    r.append(%s(x - 1) if x > 0 else None)" % expr)
+                L.append("    r.append(%s(%s) if x > 0 else None)" % (expr, _cargs(td)))
     L.append("    return r")
     return "\n".join(L) + "\n"
 
@@ -318,11 +335,11 @@ def render_lambda(name, d, prog):
                 items.append(expr)
         elif form == "hidden":
             tbl = "globals()" if td["where"] == here else "vars(%s)" % td["where"]
-            items.append("(%s[%r](x - 1) if x > 0 else None)" % (tbl, t))
+            items.append("(%s[%r](%s) if x > 0 else None)" % (tbl, t, _cargs(td)))
         elif "." in expr:
-            items.append("(lambda _t: _t(x - 1) if x > 0 else None)(%s)" % expr)
+            items.append("(lambda _t: _t(%s) if x > 0 else None)(%s)" % (_cargs(td), expr))
         else:
-            items.append("(%s(x - 1) if x > 0 else None)" % expr)
+            items.append("(%s(%s) if x > 0 else None)" % (expr, _cargs(td)))
     return "%s = lambda x: [%s]\n" % (name, ", ".join(items))
 
 
